@@ -1,13 +1,96 @@
-(* C17 — pinned statements; proofs live in Proofs/. *)
-From NW Require Import Base.Bytes Model.SchemaTypes Gen.Schema Model.Codec Model.Ids Model.Server.
+(* C17 — Direct messages reach exactly their targets; client ones reach the modulator.
+   Pinned statements (types pasted verbatim from the proved lemmas by tools/pin.py); proofs in Proofs/Server*.v. *)
+From NW Require Import Base.Bytes Model.SchemaTypes Gen.Schema Model.Codec Model.MsgInfo Model.Ids Model.Server.
+From NW Require Import Proofs.ServerLib Proofs.ServerRoute Proofs.ServerHandlers Proofs.ServerSteps Proofs.ServerPhases.
+From NW Require Import Proofs.ServerInvBase Proofs.ServerInv Proofs.ServerUniq Proofs.ServerInvCor.
+From NW Require Import Proofs.ServerDelivery Proofs.ServerEvents Proofs.ServerIdentity.
 
-(* the model computes: a client connects, identifies and creates a channel *)
-Example C17_model_smoke :
-  let cfg := {| domain := bs "localhost"; has_mod := false; op_auth := false; op_fbp := false; op_fev := false; op_spp := false;
-                proto := []; max_clients := 10; max_subs := 10; max_payload_cfg := 1024; max_inflight := 10; max_message := 1024;
-                keepalive := 60000; min_keepalive := 1000; max_conns := 16; pool_budget := 4194304 |} in
-  let s := run_state cfg init [Open 1; Bytes 1 (bs "CONNECT version=1 heartbeat_interval=0" ++ [NL]) [] [];
-                               Bytes 1 (bs "IDENTIFY username=alice" ++ [NL]) [] [];
-                               Bytes 1 (bs "JOIN id=1 channel=!c1@localhost" ++ [NL]) [] []] in
-  map fst (chans s) = [bs "c1"] /\ map fst (router s) = [bs "alice"].
-Proof. vm_compute. split; reflexivity. Qed.
+Theorem C17_direct_outputs_exact :
+  forall (cfg : scfg) (s : state) (targets : list str) (payload : list N),
+    step cfg s (Direct targets payload) =
+    (s,
+     map (fun h : N => OSend h (direct_msg cfg payload) (Some payload))
+       (direct_handles s targets)) /\
+    (forall h : N,
+     In h (direct_handles s targets) <->
+     (exists (t : str) (hs : list N), In t targets /\ alookup t (router s) = Some hs /\ In h hs)) /\
+    get_str (direct_msg cfg payload) "from" = domain cfg /\
+    get_num (direct_msg cfg payload) "length" = N.of_nat (Datatypes.length payload) /\
+    is_kind (direct_msg cfg payload) "MOD_DIRECT" = true.
+Proof. exact C17_direct_exact. Qed.
+
+Theorem C17_direct_once_per_connection :
+  forall (cfg : scfg) (s : state) (targets : list str) (payload : list N) 
+      (s' : state) (os : list out),
+    Inv cfg s ->
+    step cfg s (Direct targets payload) = (s', os) ->
+    s' = s /\
+    (forall h : N,
+     (exists (t : str) (hs : list N), In t targets /\ alookup t (router s) = Some hs /\ In h hs) ->
+     deliveries h os = [(direct_msg cfg payload, payload)]) /\
+    (forall h : N,
+     ~
+     (exists (t : str) (hs : list N), In t targets /\ alookup t (router s) = Some hs /\ In h hs) ->
+     deliveries h os = [] /\ (forall (m : msg) (p : option (list N)), ~ In (OSend h m p) os)) /\
+    (forall o : out,
+     In o os -> exists h : N, o = OSend h (direct_msg cfg payload) (Some payload)).
+Proof. exact C17_direct_once. Qed.
+
+Theorem C17_direct_only_listed_users :
+  forall (cfg : scfg) (s : state) (targets : list str) (payload : list N) 
+      (s' : state) (os : list out) (h : N) (cn : conn) (u : str),
+    Inv cfg s ->
+    step cfg s (Direct targets payload) = (s', os) ->
+    nlookup h (conns s) = Some cn ->
+    c_phase cn = Authenticated ->
+    c_nid cn = Some {| nu := u; nd := domain cfg |} ->
+    (In u targets -> deliveries h os = [(direct_msg cfg payload, payload)]) /\
+    (~ In u targets ->
+     deliveries h os = [] /\ (forall (m : msg) (p : option (list N)), ~ In (OSend h m p) os)).
+Proof. exact C17_direct_by_user. Qed.
+
+Theorem C17_client_direct_forwarded :
+  forall (cfg : scfg) (h : N) (me : nid) (m : msg) (payload : list N) (c : ctx),
+    let r := h_mod_direct cfg h me m payload c in
+    (has_mod cfg = false \/ op_spp cfg = false -> r = (c, Some (PErr None "UNEXPECTED_MESSAGE"))) /\
+    (has_mod cfg = true ->
+     op_spp cfg = true ->
+     (get_onum m "id" = None -> r = (c, Some (PErr None "BAD_REQUEST"))) /\
+     (forall id : N,
+      get_onum m "id" = Some id ->
+      let o := head_outcome (script c) in
+      st (fst r) = st c /\
+      closing (fst r) = closing c /\
+      hints (fst r) = hints c /\
+      outs (fst r) =
+      outs c ++
+      OMod (McSpp (nu me) payload)
+      :: match o with
+         | MErr | MInvalid => []
+         | _ => [md_ack h id]
+         end /\
+      snd r =
+      match o with
+      | MErr => Some PInternal
+      | MInvalid => Some (PErr (Some id) "BAD_REQUEST")
+      | _ => None
+      end)).
+Proof. exact C17_client_direct. Qed.
+
+Theorem C17_client_direct_ack_iff_valid :
+  forall (cfg : scfg) (h : N) (me : nid) (m : msg) (payload : list N) 
+      (c : ctx) (id : N) (d : list out),
+    has_mod cfg = true ->
+    op_spp cfg = true ->
+    get_onum m "id" = Some id ->
+    outs (fst (h_mod_direct cfg h me m payload c)) = outs c ++ d ->
+    In (OMod (McSpp (nu me) payload)) d /\
+    (forall mc : modcall, In (OMod mc) d -> mc = McSpp (nu me) payload) /\
+    (In (md_ack h id) d <->
+     head_outcome (script c) <> MErr /\ head_outcome (script c) <> MInvalid) /\
+    ((exists (a : msg) (pa : option (list N)),
+        In (OSend h a pa) d /\ is_kind a "MOD_DIRECT_ACK" = true) <->
+     head_outcome (script c) <> MErr /\ head_outcome (script c) <> MInvalid) /\
+    (snd (h_mod_direct cfg h me m payload c) = None <->
+     head_outcome (script c) <> MErr /\ head_outcome (script c) <> MInvalid).
+Proof. exact C17_client_direct_ack. Qed.
